@@ -144,6 +144,48 @@ def read_hashes(exp, W, where, extroot):
     return first
 
 
+def _content_change_relation(exp, W, first, ctx: Ctx):
+    """Within ONE loaded experiment: an input file changes at the same path (an edited input, a re-run producer); after
+    memoization_reset() every component that consumes it hashes differently, and identically again once the old
+    contents are back. (Hashes are a function of the contents at the time they are computed, not of an earlier read.)"""
+    consumers = {}
+    for n in G.nodes(W):
+        for ref in W["comps"][n[0]]["refs"]:
+            if ref["t"] == "input" and W["input"].get(ref["f"]) is not None:
+                consumers.setdefault(ref["f"], []).append(n)
+    if not consumers:
+        return
+    fname = sorted(consumers)[0]
+    path = os.path.join(exp.instanceDirectory.inputDir, fname)
+    if not os.path.isfile(path):
+        return
+    specs = {n: exp.graph.nodes[G.node_id(W, n)]["componentSpecification"] for n in G.nodes(W)}
+    with open(path, "rb") as f:
+        old = f.read()
+    try:
+        with open(path, "ab") as f:
+            f.write(b"\nchanged in place\n")
+        for sp in specs.values():
+            sp.memoization_reset()
+        changed = {n: specs[n].memoization_hash for n in specs}
+        for n in consumers[fname]:
+            if first[n][0] is not None and changed[n] == first[n][0]:
+                raise Violation("hash-ignores-change-of-file-contents-at-same-path",
+                                "%s: input/%s was changed in place and the memoization state reset, the strong hash is "
+                                "still %s" % (G.node_id(W, n), fname, changed[n]))
+    finally:
+        with open(path, "wb") as f:
+            f.write(old)
+        for sp in specs.values():
+            sp.memoization_reset()
+    back = {n: (specs[n].memoization_hash, specs[n].memoization_hash_fuzzy) for n in specs}
+    if back != first:
+        n = [x for x in first if first[x] != back[x]][0]
+        raise Violation("hash-not-restored-with-file-contents",
+                        "%s: %s before, %s after input/%s was changed and restored" % (G.node_id(W, n), first[n], back[n], fname))
+    ctx.rec.label("content-changed-in-place")
+
+
 def _closure(W, node, out=None):
     """node plus every producer whose own hash is an ingredient of node's hash (directory references)."""
     out = out if out is not None else []
@@ -242,6 +284,8 @@ def _check_pair(case, W, W2, mut, root, ctx: Ctx):
         ctx.rec.label("rejected-at-load")
         return
     h1 = read_hashes(e1, W, "base", extroot)
+    if h1 is not None:
+        _content_change_relation(e1, W, h1, ctx)
     shutil.rmtree(extroot, ignore_errors=True)
     e2 = instantiate(W2, os.path.join(root, "deeper", "b-location"), extroot)
     if e2 is None:
